@@ -17,11 +17,11 @@ S0 == {SAcct(a, od) : a \in {"a", "b"}, od \in {-1, 2, -2}} \cup {SAcct("world",
 S1 == S0 \cup {SMax(cp, s) : cp \in {1, 3}, s \in S0} \cup {SSeq(<<s, t>>) : s, t \in S0}
 S2deep == {SMax(cp, s) : cp \in {1, 3}, s \in S1} \cup {SSeq(<<s, t>>) : s \in S1, t \in S1} \cup {SSeq(<<s, t, u>>) : s, t, u \in S0}
 PortSets == {<<Por(1, 2), Por(1, 2)>>, <<Por(1, 3), Por(2, 3)>>, <<Por(1, 3), Remaining>>, <<Remaining, Por(3, 4)>>,
-             <<Por(1, 2), Por(1, 4)>>, <<Por(2, 3), Por(2, 3)>>, <<Por(1, 2), Por(1, 2), Remaining>>,
-             \* portions given by variables (negative denominator): with `remaining`; alone (refused whatever their values);
-             \* next to a literal that already makes 100% or that does not
-             <<Por(1, -3), Remaining>>, <<Por(1, -2), Por(1, -2)>>, <<Por(1, -3), Por(1, -3)>>, <<Por(1, 2), Por(1, -2)>>,
-             <<Por(1, -4), Por(1, 2), Remaining>>}
+             <<Por(1, 2), Por(1, 4)>>, <<Por(2, 3), Por(2, 3)>>, <<Por(1, 2), Por(1, 2), Remaining>>}
+\* portions given by variables (negative denominator): with `remaining`; alone (refused whatever their values); next to a
+\* literal that already makes 100% or that does not
+VarPortSets == {<<Por(1, -3), Remaining>>, <<Por(1, -2), Por(1, -2)>>, <<Por(1, -3), Por(1, -3)>>, <<Por(1, 2), Por(1, -2)>>,
+                <<Remaining, Por(3, -4)>>, <<Por(1, -4), Por(1, 2), Remaining>>, <<Por(1, -4), Por(1, -4), Por(1, -2)>>}
 Port3Sets == {<<Por(1, 3), Por(1, 3), Remaining>>, <<Por(1, 4), Por(1, 4), Por(1, 2)>>, <<Por(1, 7), Por(2, 7), Remaining>>,
               <<Remaining, Por(1, 3), Remaining>>}
 SA == {SAllot(ps, <<s, t>>) : ps \in {p \in PortSets : Len(p) = 2}, s, t \in S0}
@@ -47,6 +47,11 @@ BalsPos == {Bal(a, b) : a \in {2, 5}, b \in {0, 3}}
 
 S3 == {SSeq(<<SMax(cp, SAcct(x, -1)), SAcct(y, o), SAcct(x, o2)>>) : cp \in {1, 3}, x \in {"a", "b"}, y \in {"a", "b", "world"}, o \in {-1, 2}, o2 \in {-1, 2}}
       \cup {SSeq(<<SAcct(x, -1), SMax(cp, SAcct(y, -1)), SMax(cp, SAcct(x, 2))>>) : cp \in {1, 3}, x \in {"a", "b"}, y \in {"a", "b"}}
+PvarSrc == {SAcct("world", -1), SAcct("a", -1)}
+           \cup {SAllot(ps, <<SAcct("a", -1), SAcct("b", 2)>>) : ps \in {p \in VarPortSets : Len(p) = 2}}
+           \cup {SAllot(ps, <<SAcct("a", -1), SAcct("b", -1), SAcct("world", -1)>>) : ps \in {p \in VarPortSets : Len(p) = 3}}
+PvarDst == {DAcct("x")} \cup {DAllot(ps, <<e1, e2>>) : ps \in {p \in VarPortSets : Len(p) = 2}, e1, e2 \in KD0}
+           \cup {DAllot(ps, <<DAcct("x"), DKept, DAcct("y")>>) : ps \in {p \in VarPortSets : Len(p) = 3}}
 PctPorts == {<<Por(41, 2000), Remaining>>, <<Por(101, 10000), Por(1, 16), Remaining>>, <<Por(21, 2000), Por(1979, 2000)>>,
              <<Por(1, 40), Por(3, 80), Remaining>>}
 PctSrc == {SAcct("world", -1), SAcct("a", -1)}
@@ -75,6 +80,7 @@ Cases ==
       [] Family = "src3"    -> {[sends |-> <<Send(m, s, DAcct("x"))>>, bal |-> b] : m \in {-1, 1, 3, 4, 7}, s \in S3, b \in BalsWide}
                                \cup {[sends |-> <<Send(m, s, DAcct("x")), Send(m2, SAcct(a, -1), DAcct("y"))>>, bal |-> b]
                                         : m \in {1, 3, 4}, m2 \in {1, 3, -1}, s \in S3, a \in {"a", "b"}, b \in BalsPos}
+      [] Family = "pvar"    -> {[sends |-> <<Send(m, s, d)>>, bal |-> b] : m \in {-1, 0, 1, 3, 4, 7}, s \in PvarSrc, d \in PvarDst, b \in BalsPos}
       \* portions whose percentage has decimals with a leading zero (2.05%, 1.01%, 6.25%), at amounts where they matter
       [] Family = "pct"     -> {[sends |-> <<Send(m, s, d)>>, bal |-> BalPct(a, b)] : m \in {7, 100, 4001}, s \in PctSrc, d \in PctDst,
                                                                                        a \in {0, 50, 5000}, b \in {0, 4000}}
@@ -108,7 +114,7 @@ LawC03Amount ==
 K == 84
 \* amounts 1, 3, 4: at K * 2^55 they still fit a machine word
 \* only the families whose portions are not nested: below a portion of a portion K would have to be a multiple of products
-UsesK(cs) == Family \in {"src1", "dst1"} /\ HasPorts(cs.sends) /\ cs.sends[1].amt \in {1, 3, 4}
+UsesK(cs) == Family \in {"src1", "dst1", "pvar"} /\ HasPorts(cs.sends) /\ cs.sends[1].amt \in {1, 3, 4}
 Emit == TLCGet("stats").generated >= 0 /\
         ndJsonSerialize(OutFile, SetToSeq({[sends |-> cs.sends, bal |-> cs.bal, exp |-> Out(cs),
                                             k |-> IF UsesK(cs) THEN K ELSE 0,
